@@ -357,7 +357,7 @@ impl Check for C11 {
         vec!["hook: cfg(e57_verif) re-exports PagedWriter/PagedReader unchanged".into(), "nothing is asserted about the writer's state after a failed seek".into()]
     }
     fn budget(t: Tier) -> usize {
-        t.pick(300_000, 3_000_000)
+        t.pick(300_000, 15_000_000)
     }
     fn fixed(t: Tier) -> Vec<Case> {
         let depth = t.pick(4, 5);
